@@ -672,3 +672,19 @@ func LoopVisitedGuard(p *Prog, fn *ssa.Function, isRef func(*ssa.Lookup) bool) (
 	}
 	return true, fmt.Sprintf("%d reference lookup(s) in loops: every way back to the loop header records a per-iteration key in the visited set", n)
 }
+
+// PassFrom: every forward path from the start of block b to an instruction satisfying isB executes an instruction
+// satisfying isA first.
+func PassFrom(b *ssa.BasicBlock, isA, isB func(ssa.Instruction) bool) bool {
+	if len(b.Instrs) == 0 {
+		return true
+	}
+	first := b.Instrs[0]
+	if isA(first) {
+		return true
+	}
+	if isB(first) {
+		return false
+	}
+	return passBetween(first, isA, isB)
+}
